@@ -285,9 +285,9 @@ macro_rules! bstep_set {
         verif_harness! { name: $de, bytes: 34 + $m, unwind: $u, stubs: [(crate::belt_block_raw, stub_raw), (crate::xor, lean_xor), (crate::xor_set, lean_xor_set)], prop: |inp| { bstep_inverse::<$m, $n>(&inp[..], false) } }
     };
 }
-//@ harness name=wbstep_enc_l2048 prop=C18,C20 tier=quick bits=16656 stub=1 quick=C20 variants=belt-block:step est=135 need=7 desc="inductive step, len = 2048 (n = 128: the round counter runs to 256 and no longer fits one octet; same n as 2033..=2047): ONE round of the real belt_wblock_enc with an arbitrary selected counter i0 in 1..=256 on an arbitrary 2048-octet buffer == oracle round i0 (6.2.3 steps 1-4 on 128-bit numbers, counter as the number i0); all keys; belt-block under the key uninterpreted; xor / xor_set through their proved transcriptions; no panic / overflow on the way"
+//@ harness name=wbstep_enc_l2048 prop=C18,C20 tier=quick bits=16656 stub=1 quick=C20 variants=belt-block:step est=155 need=7 desc="inductive step, len = 2048 (n = 128: the round counter runs to 256 and no longer fits one octet; same n as 2033..=2047): ONE round of the real belt_wblock_enc with an arbitrary selected counter i0 in 1..=256 on an arbitrary 2048-octet buffer == oracle round i0 (6.2.3 steps 1-4 on 128-bit numbers, counter as the number i0); all keys; belt-block under the key uninterpreted; xor / xor_set through their proved transcriptions; no panic / overflow on the way"
 //@ harness name=wbstep_dec_l2048 prop=C18,C20 tier=quick bits=16656 stub=1 variants=belt-block:step est=130 need=7 desc="inductive step, len = 2048: one round of the real belt_wblock_dec, arbitrary counter i0 in 1..=256, arbitrary buffer == oracle round (6.2.4)"
-//@ harness name=wbstep_inv_ed_l2048 prop=C18,C01,C20 tier=quick bits=16656 stub=1 quick=C01 variants=belt-block:step est=285 need=11 desc="inductive step, len = 2048: dec round i0 after enc round i0 restores the buffer, arbitrary i0 in 1..=256, arbitrary buffer and key (the compositions are then inverse in this order)"
+//@ harness name=wbstep_inv_ed_l2048 prop=C18,C01,C20 tier=quick bits=16656 stub=1 quick=C01 variants=belt-block:step est=330 need=11 desc="inductive step, len = 2048: dec round i0 after enc round i0 restores the buffer, arbitrary i0 in 1..=256, arbitrary buffer and key (the compositions are then inverse in this order)"
 //@ harness name=wbstep_inv_de_l2048 prop=C18,C01,C20 tier=quick bits=16656 stub=1 variants=belt-block:step est=255 need=11 desc="inductive step, len = 2048: enc round i0 after dec round i0 restores the buffer"
 bstep_set!(wbstep_enc_l2048, wbstep_dec_l2048, wbstep_inv_ed_l2048, wbstep_inv_de_l2048, 2048, 128, 2100);
 //@ harness name=wbstep_enc_l4096 prop=C18,C20 tier=thorough bits=33040 stub=1 est=900 mem=30 variants=belt-block:step desc="inductive step, len = 4096 (n = 256, counter up to 512): one enc round, arbitrary counter, == oracle round"
